@@ -21,7 +21,12 @@ Fixpoint subseqf (a b : list frame) : bool :=
   end.
 Definition pushes (l : list frame) : list frame := filter is_push l.
 
+(* once the subscription's end (unsubscribe reply / push, disconnect) is on the wire the
+   connection no longer reports the channel: the bracket is closed on the connection's side too *)
+Definition ended_log (l : list frame) : bool := existsb is_end l.
+
 Definition oracle (k : case) : bool :=
-  c10_oracle (o_log k) && subseqf (pushes (o_log k)) (o_deliv k).
+  c10_oracle (o_log k) && subseqf (pushes (o_log k)) (o_deliv k) &&
+  (if ended_log (o_log k) then negb (o_subscribed k) else true).
 
 Definition run (cs : list case) := failing corr oracle cs.
